@@ -33,6 +33,7 @@ TARGETS = {
     ("utype/parser/base.py", "BaseParser.resolve_forward_refs"): "rfr",
     ("utype/parser/base.py", "BaseParser._resolve_forward_refs"): "rfr",
     ("utype/parser/func.py", "FunctionParser.resolve_forward_refs"): "frf",
+    ("utype/parser/options.py", "Options.__and__"): "opt",      # merge of shared Options objects on the parse path
     ("utype/parser/func.py", "FunctionParser.positional_fields"): "pf",      # lazily built index (cached_property body)
     ("utype/parser/cls.py", "ClassParser.resolve_forward_refs"): "crf",      # walks the base classes' parsers first
     ("utype/parser/field.py", "ParserField.resolve_forward_refs"): "fld",
@@ -146,7 +147,10 @@ NAMES = {
 
 
 # ---- lazily initialised / runtime-written parser state, found in the source (ast, nothing imported) -------------
-LAZY_FILES = ["utype/parser/func.py", "utype/parser/base.py", "utype/parser/cls.py", "utype/parser/field.py"]
+LAZY_FILES = ["utype/parser/func.py", "utype/parser/base.py", "utype/parser/cls.py", "utype/parser/field.py",
+              "utype/parser/options.py"]
+# objects created per call (never shared between threads): their methods may write their own state at any time
+PER_CALL_CLASSES = {"RuntimeContext"}
 # methods that run while a declaration is being built (single-threaded by nature: the object is not shared yet)
 CONSTRUCTION_ROOTS = ["__init__", "__init_subclass__", "__set_name__", "make_init"]
 # the functions of the thread model that rewrite parser state at the first use (all in TARGETS, all modelled)
@@ -170,6 +174,8 @@ def scan_lazy(repo):
         except Exception:
             continue
         for cls in [n for n in tree.body if isinstance(n, ast.ClassDef)]:
+            if cls.name in PER_CALL_CLASSES:
+                continue
             for n in cls.body:
                 if isinstance(n, (ast.FunctionDef, ast.AsyncFunctionDef)):
                     methods.setdefault(n.name, []).append((f, cls.name, n))
@@ -309,7 +315,7 @@ def _label(ci, code, lineno):
         return r
     raw = ci.text(lineno)
     txt = raw.split("#")[0].strip()
-    if ci.tag in ("lazy", "cp"):
+    if ci.tag in ("lazy", "cp", "opt"):
         r = (f"{ci.tag}:{getattr(code, 'co_qualname', code.co_name)}+{lineno - ci.start}", True, LOCK_RE.match(raw))
         _LABELS[k] = r
         return r
@@ -630,6 +636,8 @@ def impl(case):
         return impl_registry(case)
     if case.get("op") == "apf":
         return impl_apf(case)
+    if case.get("op") == "steady":
+        return impl_steady(case)
     prog, threads = case["prog"], case["threads"]
     # the sequential references depend on the declaration and the calls only: computed once per worker
     mk = json.dumps([prog, threads], sort_keys=True)
@@ -657,6 +665,17 @@ def probe(case):
     """step counts of every thread when it runs first and alone to its end (upper bounds for the enumeration)"""
     if case.get("op") == "registry":
         return probe_registry(case)
+    if case.get("op") == "steady":
+        out = []
+        for t in range(len(case["threads"])):
+            do, done = _steady_env(case)
+            for i in range(len(STEADY_INPUTS)):
+                do(i)
+            s = Sched([[t, 10 ** 9]], case.get("mode", "vis"), case.get("points") or STEADY_POINTS)
+            s.run([(lambda calls=calls: [do(i) for i in calls]) for calls in case["threads"]])
+            done()
+            out.append(s.per_thread[t])
+        return {"steps": out}
     if case.get("op") == "apf":
         out = []
         for t in range(len(case["threads"])):
@@ -906,6 +925,80 @@ def probe_registry(case):
     return {"steps": out}
 
 
+# ---- steady state: N threads parse different values through one fully initialised class ------------------------
+
+STEADY_SRC = '''
+import utype
+from utype import Schema, Options, Field
+from typing import List, Optional, Union, Dict
+class Msg(Schema):
+    __options__ = Options(%(opts)s)
+    tags: Union[str, List[str]]
+    n: Union[int, List[int]] = 0
+    m: Optional[float] = None
+    d: Dict[str, Union[int, str]] = Field(default_factory=dict)
+@utype.parse(options=Options(%(opts)s))
+def fmsg(tags: Union[str, List[str]], n: Union[int, List[int]] = 0, m: Optional[float] = None, **kw):
+    return {"tags": tags, "n": n, "m": m}
+'''
+STEADY_OPTS = ["addition=True", "case_insensitive=True", "invalid_items='exclude'", ""]
+STEADY_INPUTS = [
+    {"tags": [1, 2], "n": ["3", "4"], "m": "1.5"},
+    {"tags": [1, 2], "n": "3", "m": "2"},
+    {"tags": "xx", "n": 3.0},
+    {"tags": ["a", 2], "n": [1.0, "2"], "d": {"k": "5"}},
+    {"tags": ["solo"], "n": [7]},          # one-item lists stay lists: the List[...] member takes them as they are
+    {"tags": ["x"], "n": ["8"], "m": [2]},
+    {"tags": "t", "n": "zz"},              # rejected by every member
+]
+
+
+def _steady_env(case):
+    k = next(_MOD)
+    name = f"_c20_mod_{k}"
+    m = types.ModuleType(name)
+    sys.modules[name] = m
+    exec(compile(STEADY_SRC % {"opts": STEADY_OPTS[case.get("opts", 0) % len(STEADY_OPTS)]}, name, "exec", dont_inherit=True),
+         m.__dict__)
+    target = m.fmsg if case.get("fn") else m.Msg
+
+    def do(i):
+        data = STEADY_INPUTS[i % len(STEADY_INPUTS)]
+        if case.get("fn"):
+            data = {k2: v for k2, v in data.items() if k2 in ("tags", "n", "m")}
+        try:
+            return {"ok": canon(target(**data))}
+        except _Abort:
+            raise
+        except Exception as e:
+            from utype.utils.exceptions import ParseError
+            return {"err": "ParseError" if isinstance(e, ParseError) else type(e).__name__}
+
+    return do, (lambda: sys.modules.pop(name, None))
+
+
+def impl_steady(case):
+    threads = case["threads"]
+    do, done = _steady_env(case)
+    try:
+        # every input alone, in a warm type (the first use is over): the reference
+        warm = [do(i) for i in range(len(STEADY_INPUTS))]
+        mk = json.dumps(["steady", case.get("opts", 0), bool(case.get("fn")), threads])
+        if mk not in _REF:
+            _REF[mk] = (warm, [[do(i) for i in calls] for calls in threads])
+        ref, seq = _REF[mk]
+        if warm != ref:
+            return {"__worker_exc__": "steady reference differs between fresh modules"}
+        alone = [[ref[i % len(STEADY_INPUTS)] for i in calls] for calls in threads]
+        s = Sched(case["sched"], case.get("mode", "vis"), case.get("points") or STEADY_POINTS)
+        outs = s.run([(lambda calls=calls: [do(i) for i in calls]) for calls in threads])
+        post = None if s.deadlock else [do(i) for i in range(len(STEADY_INPUTS))]
+        return {"outs": outs, "post": post, "seq": seq, "seq_post": ref, "alone": alone,
+                "trace": s.trace, "steps": s.per_thread, "deadlock": s.deadlock}
+    finally:
+        done()
+
+
 # ---- the module-level parser cache `__parsers__` (BaseParser.apply_for): spec sweep only -------------
 
 def _apf_env(case):
@@ -968,7 +1061,8 @@ def impl_apf(case):
 
 FWD_POINTS = ["rfr", "frf", "crf", "fld", "rft", "pv", "tc", "ta", "lrf", "rrf"]
 ALL_POINTS = sorted(set(TARGETS.values()))
-LAZY_POINTS = FWD_POINTS + ["lazy", "cp", "pf"]        # + every line of lazily initialised parser attributes
+LAZY_POINTS = FWD_POINTS + ["lazy", "cp", "pf"]
+STEADY_POINTS = ["opt", "lazy", "cp", "res"]      # shared objects on the steady-state parse path        # + every line of lazily initialised parser attributes
 MODELLED_ANN = {"ref", "slist", "plain"}
 INF = 10 ** 6
 
@@ -1230,6 +1324,16 @@ class C20(Check):
         for i in range(nreg):
             nt = 2 if (tier == "quick" or rng.random() < 0.6) else 3
             items.append(gen_registry(rng, nt, with_reg=(0, 1, 0, 1, 2)[i % 5]))
+        # (d) steady state: threads parse different values through one fully initialised class with its own options and
+        #     Union / Optional fields (shared Options objects, registry cache on the parse path)
+        first_steady = len(items)
+        nst = {"quick": 4, "thorough": 16, "search": 6}[tier]
+        for i in range(nst):
+            nt = 2 if i < 2 else rng.choice([2, 3, 4])
+            items.append({"op": "steady", "opts": i % len(STEADY_OPTS), "fn": (i % 4 == 3), "points": STEADY_POINTS, "mode": "vis",
+                          "threads": [[rng.randrange(len(STEADY_INPUTS)) for _ in range(rng.randint(1, 2))] for _ in range(nt)]
+                          if i >= 2 else [[4, 0], [1, 4]]})
+        end_steady = len(items)
         first_apf = len(items)
         for i in range({"quick": 2, "thorough": 6, "search": 2}[tier]):
             nt = 2 if i % 2 == 0 else 3
@@ -1241,7 +1345,15 @@ class C20(Check):
             if not L:
                 L = [40] * len(it["threads"])
             nt = len(it["threads"])
-            if first_lazy <= idx < first_lazy + nlazy:
+            if first_steady <= idx < end_steady:
+                if nt == 2:
+                    scheds = schedules_2(L, 1) + [random_schedule(rng, L, nt, 2) for _ in range(120)]
+                else:
+                    scheds = [random_schedule(rng, L, nt, rng.randint(1, 3)) for _ in range(200)]
+                if tier == "quick" and len(scheds) > 260:
+                    rng.shuffle(scheds)
+                    scheds = scheds[:260]
+            elif first_lazy <= idx < first_lazy + nlazy:
                 scheds = schedules_2(L, 2)
                 if tier == "quick" and len(scheds) > 450:
                     one = [x for x in scheds if len(x) <= 2]
@@ -1429,12 +1541,14 @@ class C20(Check):
         counts = [sum(1 for t, _ in tr if t == k) for k in range(len(case["threads"]))]
         if self._preemptions(tr, counts) == 0:
             return None
-        deep = any(l.split(":")[0] in ("rfr", "res", "apf") and l not in ("rfr:chk", "res:cchk") for _, l in tr)
+        deep = any(l.split(":")[0] in ("rfr", "res", "apf", "opt", "lazy", "cp") and l not in ("rfr:chk", "res:cchk") for _, l in tr)
         if not deep:
             return None
         return json.dumps([case.get("prog") or [case.get("init"), case.get("cache")], case["threads"], tr], sort_keys=True)
 
     def distribution(self, case, io):
+        if case.get("op") == "steady":
+            return f"steady/opts={case.get('opts')}/{'fn' if case.get('fn') else 'cls'}/threads={len(case['threads'])}/spec-only"
         if case.get("op") == "apf":
             return f"apply_for/threads={len(case['threads'])}/spec-only"
         if case.get("op") == "registry":
